@@ -119,7 +119,9 @@ def shape_inputs(tier):
         if fam.startswith("nested_"):
             ns = [5, 19, 25] + deep
         elif fam in ("subtype_chain", "subtype_cycle"):
-            ns = [1, 2, 3, 40, 1000] if quick else [1, 2, 3, 40, 1000, 20000]
+            ns = [1, 2, 3, 40, 300] if quick else [1, 2, 3, 40, 300, 1000]      # exp2cxx is quadratic in the chain length
+        elif fam == "many_supertypes":
+            ns = [100, 150] if quick else [50, 100, 300]      # exp2python is super-linear (about cubic) in the number of supertypes of one entity
         elif fam.startswith("many_"):
             ns = [100, 101, 150] if quick else [99, 100, 101, 500, 3000]
         elif fam in ("non_ascii", "nul_bytes"):
@@ -247,7 +249,14 @@ def make_key(tool, r, fam):
     return re.sub(r"\s+", "_", key)
 
 
+EXTRA_MARKS = [("subtype_cycle", ("ENTITYcalculate_inheritance", "ENTITYget_named_attribute", "subtype_cycle")),
+               ("wide", ("non_unique_types_string",))]
+
+
 def site_of(sig):
+    for fam, marks in EXTRA_MARKS:
+        if any(m in sig for m in marks):
+            return fam
     for fam, tools, q, marks in SITES:
         if any(m in sig for m in marks):
             return fam
@@ -321,6 +330,8 @@ THEOREM_SITE = {
     "C06_no_overflow_case_fns": ["ident_enum_item", "ident_attribute", "ident_schema"], "C06_ident_gate": ["ident_enum_item", "ident_schema"],
     "C06_ident_gate_present": ["ident_enum_item", "ident_schema"], "C06_no_overflow_type_description": ["many_enum_items"],
     "C06_no_overflow_exppp_filename": ["ident_schema"],
+    "C06_inheritance_terminates": ["subtype_cycle"], "C06_named_attribute_terminates": ["subtype_cycle"],
+    "C06_no_overflow_non_unique_types": ["wide"],
 }
 
 
@@ -391,6 +402,32 @@ def run(ctx):
                     disagreements.append((fam, n, t, pred, f"rejected without the identifier-length diagnostic: {r['diag'][:120]}"))
                 elif pc == "ok" and fam.startswith("ident_") and t != "exppp" and r["cls"] == "reject" and "characters long" in r["err"]:
                     disagreements.append((fam, n, t, pred, "identifier refused although the model's gate accepts it"))
+    # recursion over the supertype relation: the model's verdict (returns / never returns) vs the tools on SUBTYPE OF cycles
+    for n in (1, 2, 3, 40):
+        preds = model.ask(f"recursion inheritance cycle {n}", f"recursion named-attribute cycle {n + 1}")
+        its = [(f"boundary:subtype_cycle:{n}", G.shape("subtype_cycle", n), "subtype_cycle", n)]
+        res = run_.run(its, timeout=tmo)
+        for t in R.TOOLS:
+            r = res[(f"boundary:subtype_cycle:{n}", t)]
+            ncomp += 1
+            if all(p.startswith("returns") for p in preds):
+                if r["cls"] == "reject" and not any(x in r["err"] + r["diag"] for x in ("subtype of itself", "via supertype entity")):
+                    disagreements.append(("subtype_cycle", n, t, preds, f"rejected without the cycle diagnostic: {r['diag'][:100]}"))
+                elif r["cls"] == "accept":
+                    disagreements.append(("subtype_cycle", n, t, preds, "cyclic SUBTYPE OF accepted"))
+            elif r["cls"] not in R.BAD:
+                disagreements.append(("subtype_cycle", n, t, preds, f"{r['cls']} rc={r['rc']}"))
+    # non_unique_types_string: which kinds are reached twice -> fits / overflows the malloc'ed block
+    for omit in ((), (1,), (6,), (0,), (4, 5), tuple(range(8))):
+        bits = "".join("0" if i in omit else "1" for i in range(8))
+        for t, tool in (("exp2cxx", "exp2cxx"), ("exp2python", "exp2python")):
+            pred = model.one(f"nonunique {tool} {bits}")
+            its = [(f"boundary:wide:{bits}", G.wide_select(2, omit, 1) if len(omit) < 8 else G.wide_select(1, (), 0), "wide", None)]
+            r = run_.run(its, tools_of=lambda tag, f, t=t: [t], timeout=tmo)[(f"boundary:wide:{bits}", t)]
+            ncomp += 1
+            hit = r["cls"] == "sanitizer" and "non_unique_types_string" in (r["sig"] + r["err"][:2000])
+            if (mclass(pred) == "overflow") != hit and not (mclass(pred) == "overflow" and r["cls"] in R.BAD):
+                disagreements.append(("wide", bits, t, pred, f"{r['cls']} {r['sig']}"))
     # error heap: number of buffered diagnostics printed before the tool stops itself
     for fam, body in (("many_lex_errors", len("character ($) is not a valid lexical element by itself")),):
         for n in ([40, 99, 100, 101, 150] if quick else [1, 40, 74, 75, 76, 99, 100, 101, 150, 1000]):
